@@ -63,3 +63,34 @@ Proof.
   destruct (ix_next_right_pos ascii_indexer h p) as [e|[p'|]] eqn:E; try reflexivity.
   apply IH. eapply ascii_next_bound; eauto.
 Qed.
+
+(* stepping right moves right; stepping left from a position > 0 finds something (or fails), never "nothing" *)
+Lemma u8_right_gt fold h q q' : ix_next_right_pos (utf8_indexer fold) h q = Ok (Some q') -> (q < q')%nat.
+Proof.
+  simpl. unfold u8_next_right_pos. destruct (q =? length h)%nat; [discriminate|].
+  destruct (getb h q) as [e|b0]; cbn [bindR]; [discriminate|].
+  destruct (b0 <? 128) eqn:E; intro H; inversion H; subst; [lia|].
+  unfold utf8_seq_len. rewrite E. destruct (N.land b0 240 =? 224); [lia|]. destruct (N.land b0 240 =? 240); lia.
+Qed.
+Lemma ascii_right_gt h q q' : ix_next_right_pos ascii_indexer h q = Ok (Some q') -> (q < q')%nat.
+Proof.
+  simpl. unfold as_next_right_pos, try_move_right. destruct (q <=? length h)%nat; cbn [bindR]; [|discriminate].
+  destruct (length h - q <? 1)%nat; [discriminate|]. intro H; inversion H; lia.
+Qed.
+Lemma u8_left_some fold h q : (0 < q)%nat -> ix_next_left (utf8_indexer fold) h q <> Ok None.
+Proof.
+  intro Hq. simpl. unfold u8_next_left. replace (q =? 0)%nat with false by (symmetry; apply Nat.eqb_neq; lia).
+  unfold psub, decoded.
+  repeat match goal with
+         | |- context [(?k <=? q)%nat] => destruct (k <=? q)%nat; cbn [bindR]; [|discriminate]
+         | |- context [getb h ?x] => destruct (getb h x) as [?|?]; cbn [bindR]; [discriminate|]
+         | |- context [if ?c <? 128 then _ else _] => destruct (c <? 128); [discriminate|]
+         | |- context [if negb ?c then _ else _] => destruct (negb c)
+         | |- context [is_scalar ?v] => destruct (is_scalar v); discriminate
+         end.
+Qed.
+Lemma ascii_left_some h q : (0 < q)%nat -> ix_next_left ascii_indexer h q <> Ok None.
+Proof.
+  intro Hq. simpl. unfold as_next_left. replace (q =? 0)%nat with false by (symmetry; apply Nat.eqb_neq; lia).
+  unfold psub. destruct (1 <=? q)%nat; cbn [bindR]; [|discriminate]. destruct (getb h (q - 1)); cbn [bindR]; discriminate.
+Qed.
